@@ -409,7 +409,8 @@ theorem Stmt.litsPos_of_frag {s : Stmt} (h : s.frag = true) : s.litsPos = true :
   cases s with
   | send amt src d =>
     cases amt <;> cases src <;> simp only [Stmt.frag, Bool.and_eq_true, Bool.false_eq_true] at h <;>
-      simp only [Stmt.litsPos, h.2]
+      simp only [Stmt.litsPos, h.2, Bool.and_true]
+    exact h.1.2
   | setTxMeta k v => exact litsPos_of_noPortion h
   | setAccountMeta acc k v =>
     simp only [Stmt.frag, Bool.and_eq_true] at h
